@@ -1,5 +1,11 @@
 /-
   Helper lemmas for C14 (heap model of data collections).  No Mathlib.
+
+  Part 1: heaps (allocation extends, writes are local).
+  Part 2: a generic "footprint system" `FP` (what an object reads / may overwrite / how it is observed)
+          with the two generic theorems `local_inv` (frame + preservation for a step that only touches
+          what its target owns) and `fresh_inv` (a new object made of new cells is separated).
+  Part 3: the footprint system of data collections (`collFP`).
 -/
 import Ladybug.Model.Heap
 
@@ -23,6 +29,10 @@ theorem lt_next_of_some {h : Heap} (wf : WF h) {r : Nat} {c : Cell} (e : h.cells
   · exact h1
   · rw [wf r h1] at e; cases e
 
+theorem ext_cell {h h' : Heap} (wf : WF h) (ext : Ext h h') {r : Nat} {x : Cell}
+    (e : h.cells r = some x) : h'.cells r = some x := by
+  rw [ext.2 r (lt_next_of_some wf e)]; exact e
+
 theorem alloc_ext (h : Heap) (c : Cell) : Ext h (h.alloc c).1 := by
   refine ⟨Nat.le_succ _, fun r hr => ?_⟩
   simp only [Heap.alloc]
@@ -39,7 +49,7 @@ theorem alloc_wf {h : Heap} (wf : WF h) (c : Cell) : WF (h.alloc c).1 := by
 theorem alloc_get (h : Heap) (c : Cell) : (h.alloc c).1.cells (h.alloc c).2 = some c := by
   simp [Heap.alloc]
 
-theorem alloc_ref (h : Heap) (c : Cell) : (h.alloc c).2 = h.next := rfl
+theorem alloc_ref (h : Heap) (c : Cell) : @Eq Nat (h.alloc c).2 h.next := rfl
 theorem alloc_next (h : Heap) (c : Cell) : (h.alloc c).1.next = h.next + 1 := rfl
 
 theorem write_other (h : Heap) {r r' : Nat} (c : Cell) (ne : r' ≠ r) :
@@ -58,364 +68,337 @@ theorem write_wf {h : Heap} (wf : WF h) {r : Nat} (c : Cell) (hr : r < h.next) :
   rw [write_other h c this]
   exact wf r' hr''
 
-/-! ### allocation of a derived collection only allocates -/
-
-theorem allocAp_ext {h : Heap} (wf : WF h) (s : ApSrc) :
-    Ext h (allocAp h s).1 ∧ WF (allocAp h s).1 := by
-  cases s with
-  | share r => exact ⟨Ext.refl h, wf⟩
-  | new a => exact ⟨alloc_ext h _, alloc_wf wf _⟩
-
-theorem allocMeta_ext {h : Heap} (wf : WF h) (s : MetaSrc) :
-    Ext h (allocMeta h s).1 ∧ WF (allocMeta h s).1 := by
-  cases s with
-  | share r => exact ⟨Ext.refl h, wf⟩
-  | new a => exact ⟨alloc_ext h _, alloc_wf wf _⟩
-
-theorem allocVals_ext {h : Heap} (wf : WF h) (s : ValSrc) :
-    Ext h (allocVals h s).1 ∧ WF (allocVals h s).1 := by
-  cases s with
-  | share r => exact ⟨Ext.refl h, wf⟩
-  | new a t => exact ⟨alloc_ext h _, alloc_wf wf _⟩
-
-theorem allocHdr_ext {h : Heap} (wf : WF h) (s : HdrSrc) :
-    Ext h (allocHdr h s).1 ∧ WF (allocHdr h s).1 := by
-  cases s with
-  | share r => exact ⟨Ext.refl h, wf⟩
-  | new dt u ap m =>
-    simp only [allocHdr]
-    have h1 := allocAp_ext wf ap
-    have h2 := allocMeta_ext h1.2 m
-    exact ⟨(h1.1.trans h2.1).trans (alloc_ext _ _), alloc_wf h2.2 _⟩
-
-theorem mkColl_ext {h : Heap} (wf : WF h) (s : NewSpec) :
-    Ext h (mkColl h s).1 ∧ WF (mkColl h s).1 := by
-  simp only [mkColl]
-  have h1 := allocHdr_ext wf s.hdr
-  have h2 := allocVals_ext h1.2 s.vals
-  exact ⟨(h1.1.trans h2.1).trans (alloc_ext _ _), alloc_wf h2.2 _⟩
-
-/-- Every deriving operation (pinned or fixed code) only allocates: no existing cell changes. -/
-theorem derive_ext {m : Mode} {h h' : Heap} {c r : Nat} {op : DOp} (wf : WF h)
-    (e : derive m h c op = .ok (h', r)) : Ext h h' ∧ WF h' := by
-  unfold derive at e
-  split at e
-  · cases e
-  · rename_i s _
-    cases e
-    exact mkColl_ext wf s
-
-/-! ### what a collection reads and owns -/
-
-/-- A well-formed collection: all five cells exist, have the right kind, and a mutable collection
-    holds a list. -/
-def Typed (h : Heap) (c : Nat) : Prop :=
-  ∃ k hd m a v t, h.cells c = some (.coll k) ∧ h.cells k.hdr = some (.hdr hd) ∧
-    h.cells hd.md = some (.md m) ∧ h.cells hd.ap = some (.ap a) ∧
-    h.cells k.vals = some (.vals v t) ∧ (k.isMut = true → t = false)
-
-/-- The cells `obs h c` depends on. -/
-def reads (h : Heap) (c : Nat) : List Nat :=
-  match foot h c with
-  | some f => [f.coll, f.hdr, f.md, f.ap, f.vals]
-  | none => []
-
-/-- The cells a mutator applied to `c` may overwrite: the collection, its header, its metadata dict and
-    – for a mutable collection – its values list.  Never a period, never a tuple. -/
-def owned (h : Heap) (c : Nat) : List Nat :=
-  match foot h c with
-  | some f => [f.coll, f.hdr, f.md] ++ (if f.isMut then [f.vals] else [])
-  | none => []
-
-theorem foot_of_typed {h : Heap} {c : Nat} {k : Coll} {hd : Hdr}
-    (e1 : h.cells c = some (.coll k)) (e2 : h.cells k.hdr = some (.hdr hd)) :
-    foot h c = some ⟨c, k.hdr, hd.md, hd.ap, k.vals, k.isMut⟩ := by
-  simp [foot, getColl, getHdr, e1, e2]
-
-/-- `obs` and `foot` depend only on the cells in `reads`. -/
-theorem obs_congr {h h' : Heap} {c : Nat} (ty : Typed h c)
-    (same : ∀ r ∈ reads h c, h'.cells r = h.cells r) :
-    obs h' c = obs h c ∧ foot h' c = foot h c ∧ Typed h' c := by
-  obtain ⟨k, hd, m, a, v, t, e1, e2, e3, e4, e5, e6⟩ := ty
-  have hf := foot_of_typed e1 e2
-  have hr : reads h c = [c, k.hdr, hd.md, hd.ap, k.vals] := by simp [reads, hf]
-  rw [hr] at same
-  have s1 := same c (by simp)
-  have s2 := same k.hdr (by simp)
-  have s3 := same hd.md (by simp)
-  have s4 := same hd.ap (by simp)
-  have s5 := same k.vals (by simp)
-  rw [e1] at s1; rw [e2] at s2; rw [e3] at s3; rw [e4] at s4; rw [e5] at s5
-  refine ⟨?_, ?_, ⟨k, hd, m, a, v, t, s1, s2, s3, s4, s5, e6⟩⟩
-  · simp [obs, getColl, getHdr, getMeta, getAP, getVals, e1, e2, e3, e4, e5, s1, s2, s3, s4, s5]
-  · rw [hf]; exact foot_of_typed s1 s2
-
-theorem reads_lt {h : Heap} (wf : WF h) {c : Nat} (ty : Typed h c) : ∀ r ∈ reads h c, r < h.next := by
-  obtain ⟨k, hd, m, a, v, t, e1, e2, e3, e4, e5, _⟩ := ty
-  have hf := foot_of_typed e1 e2
-  intro r hr
-  simp only [reads, hf, List.mem_cons, List.not_mem_nil, or_false] at hr
-  rcases hr with rfl | rfl | rfl | rfl | rfl
-  · exact lt_next_of_some wf e1
-  · exact lt_next_of_some wf e2
-  · exact lt_next_of_some wf e3
-  · exact lt_next_of_some wf e4
-  · exact lt_next_of_some wf e5
-
-theorem owned_sub_reads {h : Heap} {c : Nat} : ∀ r ∈ owned h c, r ∈ reads h c := by
-  intro r hr
-  unfold owned at hr; unfold reads
-  split at hr
-  · rename_i f _
-    simp only [List.mem_append, List.mem_cons, List.not_mem_nil, or_false] at hr
-    rcases hr with (rfl | rfl | rfl) | hr
-    · simp
-    · simp
-    · simp
-    · split at hr
-      · simp only [List.mem_cons, List.not_mem_nil, or_false] at hr; subst hr; simp
-      · cases hr
-  · cases hr
-
-/-- Extension preserves every well-formed collection. -/
-theorem obs_ext {h h' : Heap} (wf : WF h) (ext : Ext h h') {c : Nat} (ty : Typed h c) :
-    obs h' c = obs h c ∧ foot h' c = foot h c ∧ Typed h' c :=
-  obs_congr ty fun r hr => ext.2 r (reads_lt wf ty r hr)
-
-/-! ### separation -/
-
-/-- Live collections are separated: nothing a mutator applied to `a` may overwrite is read by `b`.
-    (Two collections may share an analysis-period object or a values *tuple*: neither is ever edited.) -/
-def Sep (h : Heap) (live : List Nat) : Prop :=
-  ∀ a ∈ live, ∀ b ∈ live, a ≠ b → ∀ r ∈ owned h a, r ∉ reads h b
-
-def Inv (h : Heap) (live : List Nat) : Prop :=
-  WF h ∧ (∀ c ∈ live, Typed h c) ∧ Sep h live
-
-theorem reads_eq_of_foot {h h' : Heap} {c : Nat} (e : foot h' c = foot h c) :
-    reads h' c = reads h c ∧ owned h' c = owned h c := by
-  simp [reads, owned, e]
-
 theorem ne_of_kind {h : Heap} {r1 r2 : Nat} {x y : Cell} (e1 : h.cells r1 = some x)
     (e2 : h.cells r2 = some y) (ne : x ≠ y) : r1 ≠ r2 := by
   intro e; subst e; rw [e1] at e2; exact ne (Option.some.inj e2)
 
-/-- The kind of an owned cell: never a period, never a tuple. -/
-def OwnKind (h : Heap) (r : Nat) : Prop :=
-  (∃ k, h.cells r = some (.coll k)) ∨ (∃ x, h.cells r = some (.hdr x)) ∨
-  (∃ m, h.cells r = some (.md m)) ∨ (∃ v, h.cells r = some (.vals v false))
+/-! ### Part 2: footprint systems -/
 
-theorem owned_kind {h : Heap} {c : Nat} (ty : Typed h c) : ∀ r ∈ owned h c, OwnKind h r := by
-  obtain ⟨k, hd, m, a, v, t, e1, e2, e3, e4, e5, e6⟩ := ty
-  have hf := foot_of_typed e1 e2
-  intro r hr
-  simp only [owned, hf, List.mem_append, List.mem_cons, List.not_mem_nil, or_false] at hr
-  rcases hr with (rfl | rfl | rfl) | hr
-  · exact Or.inl ⟨k, e1⟩
-  · exact Or.inr (Or.inl ⟨hd, e2⟩)
-  · exact Or.inr (Or.inr (Or.inl ⟨m, e3⟩))
-  · split at hr
-    · rename_i hm
-      simp only [List.mem_cons, List.not_mem_nil, or_false] at hr
-      subst hr
-      have := e6 hm; subst this
-      exact Or.inr (Or.inr (Or.inr ⟨v, e5⟩))
-    · cases hr
+/-- Cells that may be shared between objects because nothing ever overwrites them: analysis periods
+    (no setters), tuples, Location objects (not edited by any modelled operation). -/
+def Shareable (h : Heap) (r : Nat) : Prop :=
+  (∃ a, h.cells r = some (.ap a)) ∨ (∃ v, h.cells r = some (.vals v true)) ∨
+  (∃ t, h.cells r = some (.loc t))
+
+/-- How a kind of object sits in the heap. -/
+structure FP (α : Type) where
+  /-- the cells the observation depends on -/
+  reads : Heap → Nat → List Nat
+  /-- the cells a mutator applied to the object may overwrite -/
+  owned : Heap → Nat → List Nat
+  Typed : Heap → Nat → Prop
+  obs : Heap → Nat → α
+  congr : ∀ {h h' : Heap} {c : Nat}, Typed h c → (∀ r ∈ reads h c, h'.cells r = h.cells r) →
+    obs h' c = obs h c ∧ reads h' c = reads h c ∧ owned h' c = owned h c ∧ Typed h' c
+  lt : ∀ {h : Heap} {c : Nat}, WF h → Typed h c → ∀ r ∈ reads h c, r < h.next
+  sub : ∀ {h : Heap} {c : Nat}, ∀ r ∈ owned h c, r ∈ reads h c
+  kind : ∀ {h : Heap} {c : Nat}, Typed h c → ∀ r ∈ owned h c, ¬ Shareable h r
+
+variable {α : Type} (fp : FP α)
+
+/-- Live objects are separated: nothing a mutator applied to `a` may overwrite is read by `b`. -/
+def Sep (h : Heap) (live : List Nat) : Prop :=
+  ∀ a ∈ live, ∀ b ∈ live, a ≠ b → ∀ r ∈ fp.owned h a, r ∉ fp.reads h b
+
+def Inv (h : Heap) (live : List Nat) : Prop :=
+  WF h ∧ (∀ c ∈ live, fp.Typed h c) ∧ Sep fp h live
+
+/-- Extension preserves every well-formed object. -/
+theorem FP.ext {h h' : Heap} (wf : WF h) (ext : Ext h h') {c : Nat} (ty : fp.Typed h c) :
+    fp.obs h' c = fp.obs h c ∧ fp.reads h' c = fp.reads h c ∧ fp.owned h' c = fp.owned h c ∧
+    fp.Typed h' c :=
+  fp.congr ty fun r hr => ext.2 r (fp.lt wf ty r hr)
 
 /-- A step that only touches what `a` owns (plus new cells). -/
 structure Local (h h' : Heap) (a : Nat) : Prop where
   wf : WF h'
-  frame : ∀ r, r < h.next → r ∉ owned h a → h'.cells r = h.cells r
-  typed : Typed h' a
-  owned_sub : ∀ r ∈ owned h' a, r ∈ owned h a ∨ h.next ≤ r
-  reads_sub : ∀ r ∈ reads h' a, r ∈ reads h a ∨ h.next ≤ r
+  frame : ∀ r, r < h.next → r ∉ fp.owned h a → h'.cells r = h.cells r
+  typed : fp.Typed h' a
+  owned_sub : ∀ r ∈ fp.owned h' a, r ∈ fp.owned h a ∨ h.next ≤ r
+  reads_sub : ∀ r ∈ fp.reads h' a, r ∈ fp.reads h a ∨ h.next ≤ r
 
 /-- Frame + preservation for a local step. -/
-theorem local_inv {h h' : Heap} {live : List Nat} {a : Nat} (inv : Inv h live) (ha : a ∈ live)
-    (loc : Local h h' a) :
-    Inv h' live ∧ ∀ b ∈ live, b ≠ a → obs h' b = obs h b := by
+theorem local_inv {h h' : Heap} {live : List Nat} {a : Nat} (inv : Inv fp h live) (ha : a ∈ live)
+    (loc : Local fp h h' a) :
+    Inv fp h' live ∧ ∀ b ∈ live, b ≠ a → fp.obs h' b = fp.obs h b := by
   obtain ⟨wf, ty, sep⟩ := inv
   have other : ∀ b ∈ live, b ≠ a →
-      obs h' b = obs h b ∧ foot h' b = foot h b ∧ Typed h' b := by
+      fp.obs h' b = fp.obs h b ∧ fp.reads h' b = fp.reads h b ∧ fp.owned h' b = fp.owned h b ∧
+      fp.Typed h' b := by
     intro b hb ne
-    refine obs_congr (ty b hb) fun r hr => ?_
-    exact loc.frame r (reads_lt wf (ty b hb) r hr) (fun ho => sep a ha b hb (Ne.symm ne) r ho hr)
+    refine fp.congr (ty b hb) fun r hr => ?_
+    exact loc.frame r (fp.lt wf (ty b hb) r hr) (fun ho => sep a ha b hb (Ne.symm ne) r ho hr)
   refine ⟨⟨loc.wf, ?_, ?_⟩, fun b hb ne => (other b hb ne).1⟩
   · intro c hc
     by_cases e : c = a
     · subst e; exact loc.typed
-    · exact (other c hc e).2.2
+    · exact (other c hc e).2.2.2
   · intro x hx y hy nxy r hr hr'
     by_cases ex : x = a
     · subst ex
       have hy' := other y hy (Ne.symm nxy)
-      rw [(reads_eq_of_foot hy'.2.1).1] at hr'
+      rw [hy'.2.1] at hr'
       rcases loc.owned_sub r hr with h1 | h1
       · exact sep x hx y hy nxy r h1 hr'
-      · have := reads_lt wf (ty y hy) r hr'; omega
+      · have := fp.lt wf (ty y hy) r hr'; omega
     · have hx' := other x hx ex
-      rw [(reads_eq_of_foot hx'.2.1).2] at hr
-      have rlt : r < h.next := reads_lt wf (ty x hx) r (owned_sub_reads r hr)
+      rw [hx'.2.2.1] at hr
+      have rlt : r < h.next := fp.lt wf (ty x hx) r (fp.sub r hr)
       by_cases ey : y = a
       · subst ey
         rcases loc.reads_sub r hr' with h1 | h1
         · exact sep x hx y hy nxy r hr h1
         · omega
       · have hy' := other y hy ey
-        rw [(reads_eq_of_foot hy'.2.1).1] at hr'
+        rw [hy'.2.1] at hr'
         exact sep x hx y hy nxy r hr hr'
 
-/-- A new collection whose own cells are all new, and which reads – besides new cells – only periods
-    and tuples of the old heap. -/
+/-- A new object whose own cells are all new, and which reads – besides new cells – only shareable
+    cells of the old heap. -/
 structure Fresh (h h' : Heap) (c : Nat) : Prop where
   ext : Ext h h'
   wf : WF h'
-  typed : Typed h' c
-  owned_new : ∀ r ∈ owned h' c, h.next ≤ r
-  reads_new : ∀ r ∈ reads h' c, h.next ≤ r ∨ (∃ a, h.cells r = some (.ap a)) ∨
-      (∃ v, h.cells r = some (.vals v true))
+  typed : fp.Typed h' c
+  self_new : h.next ≤ c
+  owned_new : ∀ r ∈ fp.owned h' c, h.next ≤ r
+  reads_new : ∀ r ∈ fp.reads h' c, h.next ≤ r ∨ Shareable h r
 
-theorem fresh_inv {h h' : Heap} {live : List Nat} {c : Nat} (inv : Inv h live) (fr : Fresh h h' c) :
-    Inv h' (live ++ [c]) ∧ ∀ b ∈ live, obs h' b = obs h b := by
+theorem fresh_inv {h h' : Heap} {live : List Nat} {c : Nat} (inv : Inv fp h live)
+    (live_lt : ∀ b ∈ live, b < h.next) (fr : Fresh fp h h' c) :
+    Inv fp h' (live ++ [c]) ∧ ∀ b ∈ live, fp.obs h' b = fp.obs h b := by
   obtain ⟨wf, ty, sep⟩ := inv
-  have old : ∀ b ∈ live, obs h' b = obs h b ∧ foot h' b = foot h b ∧ Typed h' b :=
-    fun b hb => obs_ext wf fr.ext (ty b hb)
-  have cnew : h.next ≤ c := by
-    obtain ⟨k, hd, _, _, _, _, e1, e2, _⟩ := fr.typed
-    exact fr.owned_new c (by simp [owned, foot_of_typed e1 e2])
-  have notlive : ∀ b ∈ live, b ≠ c := by
-    intro b hb e
-    obtain ⟨k, _, _, _, _, _, e1, _⟩ := ty b hb
-    have := lt_next_of_some wf e1
-    omega
+  have old : ∀ b ∈ live, fp.obs h' b = fp.obs h b ∧ fp.reads h' b = fp.reads h b ∧
+      fp.owned h' b = fp.owned h b ∧ fp.Typed h' b :=
+    fun b hb => fp.ext wf fr.ext (ty b hb)
   refine ⟨⟨fr.wf, ?_, ?_⟩, fun b hb => (old b hb).1⟩
   · intro x hx
     rcases List.mem_append.1 hx with hx | hx
-    · exact (old x hx).2.2
+    · exact (old x hx).2.2.2
     · simp only [List.mem_cons, List.not_mem_nil, or_false] at hx; subst hx; exact fr.typed
   · intro x hx y hy nxy r hr hr'
     rcases List.mem_append.1 hx with hx1 | hx1 <;> rcases List.mem_append.1 hy with hy1 | hy1
-    · rw [(reads_eq_of_foot (old x hx1).2.1).2] at hr
-      rw [(reads_eq_of_foot (old y hy1).2.1).1] at hr'
+    · rw [(old x hx1).2.2.1] at hr
+      rw [(old y hy1).2.1] at hr'
       exact sep x hx1 y hy1 nxy r hr hr'
     · simp only [List.mem_cons, List.not_mem_nil, or_false] at hy1
-      rw [(reads_eq_of_foot (old x hx1).2.1).2] at hr
-      have rlt : r < h.next := reads_lt wf (ty x hx1) r (owned_sub_reads r hr)
-      have kind := owned_kind (ty x hx1) r hr
+      rw [(old x hx1).2.2.1] at hr
+      have rlt : r < h.next := fp.lt wf (ty x hx1) r (fp.sub r hr)
+      have kind := fp.kind (ty x hx1) r hr
       rw [hy1] at hr'
-      rcases fr.reads_new r hr' with h1 | ⟨a, h1⟩ | ⟨v, h1⟩
+      rcases fr.reads_new r hr' with h1 | h1
       · omega
-      · rcases kind with ⟨_, k⟩ | ⟨_, k⟩ | ⟨_, k⟩ | ⟨_, k⟩ <;> rw [h1] at k <;> cases k
-      · rcases kind with ⟨_, k⟩ | ⟨_, k⟩ | ⟨_, k⟩ | ⟨_, k⟩ <;> rw [h1] at k <;> cases k
+      · exact kind h1
     · simp only [List.mem_cons, List.not_mem_nil, or_false] at hx1
-      rw [(reads_eq_of_foot (old y hy1).2.1).1] at hr'
-      have := reads_lt wf (ty y hy1) r hr'
+      rw [(old y hy1).2.1] at hr'
+      have := fp.lt wf (ty y hy1) r hr'
       rw [hx1] at hr
       have := fr.owned_new r hr
       omega
     · simp only [List.mem_cons, List.not_mem_nil, or_false] at hx1 hy1
       exact absurd (hx1.trans hy1.symm) nxy
 
-theorem ext_cell {h h' : Heap} (wf : WF h) (ext : Ext h h') {r : Nat} {x : Cell}
-    (e : h.cells r = some x) : h'.cells r = some x := by
-  rw [ext.2 r (lt_next_of_some wf e)]; exact e
+/-- A step that allocates but changes nothing that exists and adds no live object. -/
+theorem ext_inv {h h' : Heap} {live : List Nat} (inv : Inv fp h live) (ext : Ext h h') (wf' : WF h') :
+    Inv fp h' live ∧ ∀ b ∈ live, fp.obs h' b = fp.obs h b := by
+  obtain ⟨wf, ty, sep⟩ := inv
+  have old := fun b (hb : b ∈ live) => fp.ext wf ext (ty b hb)
+  refine ⟨⟨wf', fun c hc => (old c hc).2.2.2, ?_⟩, fun b hb => (old b hb).1⟩
+  intro x hx y hy nxy r hr hr'
+  rw [(old x hx).2.2.1] at hr
+  rw [(old y hy).2.1] at hr'
+  exact sep x hx y hy nxy r hr hr'
 
-/-- A copying spec builds a fresh collection. -/
-theorem mkColl_fresh {h : Heap} (wf : WF h) {s : NewSpec} (cp : s.Copying h) :
-    Fresh h (mkColl h s).1 (mkColl h s).2 := by
-  obtain ⟨⟨dt, u, ap, m, hh, hap⟩, hshare, hnew⟩ := cp
-  have hext := mkColl_ext wf s
-  -- the period cell
-  have A := allocAp_ext wf ap
-  have Aref : (∃ a, (allocAp h ap).1.cells (allocAp h ap).2 = some (.ap a)) ∧
-      (h.next ≤ (allocAp h ap).2 ∨ ∃ a, h.cells (allocAp h ap).2 = some (.ap a)) := by
-    cases ap with
-    | share r => obtain ⟨a, ha⟩ := hap r rfl; exact ⟨⟨a, ha⟩, Or.inr ⟨a, ha⟩⟩
-    | new a => exact ⟨⟨a, alloc_get h _⟩, Or.inl (Nat.le_refl _)⟩
-  obtain ⟨⟨apv, hapv⟩, hapn⟩ := Aref
-  generalize hA : allocAp h ap = pa at A hapv hapn
-  obtain ⟨h1, ra⟩ := pa
-  simp only at A hapv hapn
-  -- metadata and header cells
-  have B := alloc_ext h1 (.md m)
-  have Bwf := alloc_wf A.2 (.md m)
-  have Bget := alloc_get h1 (.md m)
-  generalize hB : h1.alloc (.md m) = pb at B Bwf Bget
-  obtain ⟨h2, rm⟩ := pb
-  have rm_eq : @Eq Nat rm h1.next := by have := congrArg Prod.snd hB; simpa [alloc_ref] using this.symm
-  simp only at B Bwf Bget
-  have C := alloc_ext h2 (.hdr ⟨dt, u, ra, rm⟩)
-  have Cwf := alloc_wf Bwf (.hdr ⟨dt, u, ra, rm⟩)
-  have Cget := alloc_get h2 (.hdr ⟨dt, u, ra, rm⟩)
-  generalize hC : h2.alloc (.hdr ⟨dt, u, ra, rm⟩) = pc at C Cwf Cget
-  obtain ⟨h3, rh⟩ := pc
-  have rh_eq : @Eq Nat rh h2.next := by have := congrArg Prod.snd hC; simpa [alloc_ref] using this.symm
-  simp only at C Cwf Cget
-  have e03 : Ext h h3 := (A.1.trans B).trans C
-  -- the values cell
-  have D := allocVals_ext Cwf s.vals
-  have Dref : (∃ v t, (allocVals h3 s.vals).1.cells (allocVals h3 s.vals).2 = some (.vals v t) ∧
-        (s.isMut = true → t = false)) ∧
-      ((h3.next ≤ (allocVals h3 s.vals).2 ) ∨
-        (s.isMut = false ∧ ∃ v, h.cells (allocVals h3 s.vals).2 = some (.vals v true))) := by
-    cases hv : s.vals with
-    | share r =>
-      obtain ⟨⟨v, hv1⟩, hm⟩ := hshare r hv
-      refine ⟨⟨v, true, ext_cell wf e03 hv1, fun hm' => by rw [hm] at hm'; cases hm'⟩, Or.inr ⟨hm, v, hv1⟩⟩
-    | new v t =>
-      exact ⟨⟨v, t, alloc_get h3 _, hnew v t hv⟩, Or.inl (Nat.le_refl _)⟩
-  obtain ⟨⟨vv, vt, hvv, hvt⟩, hvn⟩ := Dref
-  generalize hD : allocVals h3 s.vals = pd at D hvv hvn
-  obtain ⟨h4, rv⟩ := pd
-  simp only at D hvv hvn
-  have E := alloc_ext h4 (.coll ⟨rh, rv, s.dts, s.isMut, s.cls, s.validated, false⟩)
-  have Ewf := alloc_wf D.2 (.coll ⟨rh, rv, s.dts, s.isMut, s.cls, s.validated, false⟩)
-  have Eget := alloc_get h4 (.coll ⟨rh, rv, s.dts, s.isMut, s.cls, s.validated, false⟩)
-  have hmk : mkColl h s = h4.alloc (.coll ⟨rh, rv, s.dts, s.isMut, s.cls, s.validated, false⟩) := by
-    simp only [mkColl, hh, allocHdr, allocMeta, hA, hB, hC, hD]
-  rw [hmk]
-  generalize hE : h4.alloc (.coll ⟨rh, rv, s.dts, s.isMut, s.cls, s.validated, false⟩) = pe at E Ewf Eget
-  obtain ⟨h5, rc⟩ := pe
-  have rc_eq : @Eq Nat rc h4.next := by have := congrArg Prod.snd hE; simpa [alloc_ref] using this.symm
-  simp only at E Ewf Eget ⊢
-  have e35 : Ext h3 h5 := D.1.trans E
-  have e45 : Ext h4 h5 := E
-  -- cells of the final heap
-  have c_hdr : h5.cells rh = some (.hdr ⟨dt, u, ra, rm⟩) := ext_cell Cwf e35 Cget
-  have c_md : h5.cells rm = some (.md m) := ext_cell Bwf (C.trans e35) Bget
-  have c_ap : h5.cells ra = some (.ap apv) := ext_cell A.2 ((B.trans C).trans e35) hapv
-  have c_vals : h5.cells rv = some (.vals vv vt) := ext_cell D.2 e45 hvv
-  have hf := foot_of_typed Eget c_hdr
-  have n01 : h.next ≤ h1.next := A.1.1
-  have n12 : h1.next ≤ h2.next := B.1
-  have n23 : h2.next ≤ h3.next := C.1
-  have n34 : h3.next ≤ h4.next := D.1.1
-  refine ⟨e03.trans e35, Ewf, ⟨_, _, m, apv, vv, vt, Eget, c_hdr, c_md, c_ap, c_vals, hvt⟩, ?_, ?_⟩
-  · intro r hr
-    simp only [owned, hf, List.mem_append, List.mem_cons, List.not_mem_nil, or_false] at hr
-    rcases hr with (rfl | rfl | rfl) | hr
-    · omega
-    · omega
-    · omega
-    · split at hr
+/-! ### Part 3: data collections -/
+
+theorem mdRefs_cons_lst (k : Nat) (r : Nat) (m : List (Nat × MVal)) :
+    mdRefs ((k, .lst r) :: m) = r :: mdRefs m := by
+  simp [mdRefs, List.filterMap_cons]
+
+theorem mdRefs_cons_tok (k : Nat) (s : MV) (m : List (Nat × MVal)) :
+    mdRefs ((k, .tok s) :: m) = mdRefs m := by
+  simp [mdRefs, List.filterMap_cons]
+
+theorem mem_mdRefs {m : List (Nat × MVal)} {r : Nat} :
+    r ∈ mdRefs m ↔ ∃ k, (k, MVal.lst r) ∈ m := by
+  induction m with
+  | nil => simp [mdRefs]
+  | cons p rest ih =>
+    obtain ⟨k, v⟩ := p
+    cases v with
+    | tok s =>
+      rw [mdRefs_cons_tok, ih]
+      constructor
+      · rintro ⟨k', hk⟩; exact ⟨k', List.mem_cons_of_mem _ hk⟩
+      · rintro ⟨k', hk⟩
+        rcases List.mem_cons.1 hk with e | e
+        · cases e
+        · exact ⟨k', e⟩
+    | lst r' =>
+      rw [mdRefs_cons_lst, List.mem_cons, ih]
+      constructor
+      · rintro (e | ⟨k', hk⟩)
+        · exact ⟨k, by rw [e]; exact List.mem_cons_self⟩
+        · exact ⟨k', List.mem_cons_of_mem _ hk⟩
+      · rintro ⟨k', hk⟩
+        rcases List.mem_cons.1 hk with e | e
+        · left; cases e; rfl
+        · exact Or.inr ⟨k', e⟩
+
+theorem obsMeta_congr {c c' : Nat → Option Cell} {m : List (Nat × MVal)}
+    (same : ∀ r ∈ mdRefs m, c' r = c r) : obsMeta c' m = obsMeta c m := by
+  unfold obsMeta
+  apply List.map_congr_left
+  intro p hp
+  obtain ⟨k, v⟩ := p
+  cases v with
+  | tok s => rfl
+  | lst r => simp only; rw [same r (mem_mdRefs.2 ⟨k, hp⟩)]
+
+/-- A well-formed collection: all cells exist and have the right kind, a mutable collection holds a
+    list, and every nested metadata list exists. -/
+def Typed (h : Heap) (c : Nat) : Prop :=
+  ∃ k hd m a v t, h.cells c = some (.coll k) ∧ h.cells k.hdr = some (.hdr hd) ∧
+    h.cells hd.md = some (.md m) ∧ h.cells hd.ap = some (.ap a) ∧
+    h.cells k.vals = some (.vals v t) ∧ (k.isMut = true → t = false) ∧
+    ∀ r ∈ mdRefs m, ∃ l, h.cells r = some (.mlist l)
+
+/-- The cells `obs h c` depends on. -/
+def reads (h : Heap) (c : Nat) : List Nat :=
+  match foot h c with
+  | some f => [f.coll, f.hdr, f.md, f.ap, f.vals] ++ f.nested
+  | none => []
+
+/-- The cells a mutator applied to `c` may overwrite: the collection, its header, its metadata dict, the
+    nested metadata lists and – for a mutable collection – its values list.  Never a period or a tuple. -/
+def owned (h : Heap) (c : Nat) : List Nat :=
+  match foot h c with
+  | some f => [f.coll, f.hdr, f.md] ++ f.nested ++ (if f.isMut then [f.vals] else [])
+  | none => []
+
+theorem foot_of_typed {h : Heap} {c : Nat} {k : Coll} {hd : Hdr} {m : List (Nat × MVal)}
+    (e1 : h.cells c = some (.coll k)) (e2 : h.cells k.hdr = some (.hdr hd))
+    (e3 : h.cells hd.md = some (.md m)) :
+    foot h c = some ⟨c, k.hdr, hd.md, hd.ap, k.vals, k.isMut, mdRefs m⟩ := by
+  simp [foot, getColl, getHdr, getMeta, e1, e2, e3]
+
+theorem reads_of_typed {h : Heap} {c : Nat} {k : Coll} {hd : Hdr} {m : List (Nat × MVal)}
+    (e1 : h.cells c = some (.coll k)) (e2 : h.cells k.hdr = some (.hdr hd))
+    (e3 : h.cells hd.md = some (.md m)) :
+    reads h c = [c, k.hdr, hd.md, hd.ap, k.vals] ++ mdRefs m ∧
+    owned h c = [c, k.hdr, hd.md] ++ mdRefs m ++ (if k.isMut then [k.vals] else []) := by
+  simp [reads, owned, foot_of_typed e1 e2 e3]
+
+theorem mem_reads {h : Heap} {c : Nat} {k : Coll} {hd : Hdr} {m : List (Nat × MVal)}
+    (e1 : h.cells c = some (.coll k)) (e2 : h.cells k.hdr = some (.hdr hd))
+    (e3 : h.cells hd.md = some (.md m)) {r : Nat} :
+    r ∈ reads h c ↔ r = c ∨ r = k.hdr ∨ r = hd.md ∨ r = hd.ap ∨ r = k.vals ∨ r ∈ mdRefs m := by
+  rw [(reads_of_typed e1 e2 e3).1]
+  simp only [List.mem_append, List.mem_cons, List.not_mem_nil, or_false]
+  constructor
+  · rintro ((h1 | h1 | h1 | h1 | h1) | h1) <;> simp [h1]
+  · rintro (h1 | h1 | h1 | h1 | h1 | h1) <;> simp [h1]
+
+theorem mem_owned {h : Heap} {c : Nat} {k : Coll} {hd : Hdr} {m : List (Nat × MVal)}
+    (e1 : h.cells c = some (.coll k)) (e2 : h.cells k.hdr = some (.hdr hd))
+    (e3 : h.cells hd.md = some (.md m)) {r : Nat} :
+    r ∈ owned h c ↔ r = c ∨ r = k.hdr ∨ r = hd.md ∨ r ∈ mdRefs m ∨ (k.isMut = true ∧ r = k.vals) := by
+  rw [(reads_of_typed e1 e2 e3).2]
+  simp only [List.mem_append, List.mem_cons, List.not_mem_nil, or_false]
+  constructor
+  · rintro (((h1 | h1 | h1) | h1) | h1)
+    · simp [h1]
+    · simp [h1]
+    · simp [h1]
+    · simp [h1]
+    · split at h1
       · rename_i hm
-        simp only [List.mem_cons, List.not_mem_nil, or_false] at hr
-        subst hr
-        rcases hvn with h1' | ⟨h1', _⟩
-        · omega
-        · rw [h1'] at hm; cases hm
-      · cases hr
-  · intro r hr
-    simp only [reads, hf, List.mem_cons, List.not_mem_nil, or_false] at hr
-    rcases hr with rfl | rfl | rfl | rfl | rfl
-    · left; omega
-    · left; omega
-    · left; omega
-    · rcases hapn with h1' | h1'
-      · left; exact h1'
-      · right; left; exact h1'
-    · rcases hvn with h1' | ⟨_, h1'⟩
-      · left; omega
-      · right; right; exact h1'
+        simp only [List.mem_cons, List.not_mem_nil, or_false] at h1
+        simp [h1, hm]
+      · cases h1
+  · rintro (h1 | h1 | h1 | h1 | ⟨hm, h1⟩)
+    · simp [h1]
+    · simp [h1]
+    · simp [h1]
+    · simp [h1]
+    · simp [h1, hm]
+
+/-- `obs` and `foot` depend only on the cells in `reads`. -/
+theorem obs_congr {h h' : Heap} {c : Nat} (ty : Typed h c)
+    (same : ∀ r ∈ reads h c, h'.cells r = h.cells r) :
+    obs h' c = obs h c ∧ reads h' c = reads h c ∧ owned h' c = owned h c ∧ Typed h' c := by
+  obtain ⟨k, hd, m, a, v, t, e1, e2, e3, e4, e5, e6, e7⟩ := ty
+  have mr := @mem_reads h c k hd m e1 e2 e3
+  have s1 := same c (mr.2 (Or.inl rfl))
+  have s2 := same k.hdr (mr.2 (Or.inr (Or.inl rfl)))
+  have s3 := same hd.md (mr.2 (Or.inr (Or.inr (Or.inl rfl))))
+  have s4 := same hd.ap (mr.2 (Or.inr (Or.inr (Or.inr (Or.inl rfl)))))
+  have s5 := same k.vals (mr.2 (Or.inr (Or.inr (Or.inr (Or.inr (Or.inl rfl))))))
+  have s6 : ∀ r ∈ mdRefs m, h'.cells r = h.cells r :=
+    fun r hr => same r (mr.2 (Or.inr (Or.inr (Or.inr (Or.inr (Or.inr hr))))))
+  rw [e1] at s1; rw [e2] at s2; rw [e3] at s3; rw [e4] at s4; rw [e5] at s5
+  have om : obsMeta h'.cells m = obsMeta h.cells m := obsMeta_congr s6
+  refine ⟨?_, ?_, ?_, ⟨k, hd, m, a, v, t, s1, s2, s3, s4, s5, e6, fun r hr => ?_⟩⟩
+  · simp [obs, getColl, getHdr, getMeta, getAP, getVals, e1, e2, e3, e4, e5, s1, s2, s3, s4, s5, om]
+  · rw [(reads_of_typed e1 e2 e3).1, (reads_of_typed s1 s2 s3).1]
+  · rw [(reads_of_typed e1 e2 e3).2, (reads_of_typed s1 s2 s3).2]
+  · obtain ⟨l, hl⟩ := e7 r hr
+    exact ⟨l, by rw [s6 r hr]; exact hl⟩
+
+theorem reads_lt {h : Heap} (wf : WF h) {c : Nat} (ty : Typed h c) : ∀ r ∈ reads h c, r < h.next := by
+  obtain ⟨k, hd, m, a, v, t, e1, e2, e3, e4, e5, _, e7⟩ := ty
+  intro r hr
+  rcases (mem_reads e1 e2 e3).1 hr with rfl | rfl | rfl | rfl | rfl | h1
+  · exact lt_next_of_some wf e1
+  · exact lt_next_of_some wf e2
+  · exact lt_next_of_some wf e3
+  · exact lt_next_of_some wf e4
+  · exact lt_next_of_some wf e5
+  · obtain ⟨l, hl⟩ := e7 r h1
+    exact lt_next_of_some wf hl
+
+theorem owned_sub_reads {h : Heap} {c : Nat} : ∀ r ∈ owned h c, r ∈ reads h c := by
+  intro r hr
+  unfold owned at hr; unfold reads
+  split at hr
+  · rename_i f _
+    simp only [List.mem_append, List.mem_cons, List.not_mem_nil, or_false] at hr ⊢
+    rcases hr with ((h1 | h1 | h1) | h1) | h1
+    · simp [h1]
+    · simp [h1]
+    · simp [h1]
+    · exact Or.inr h1
+    · split at h1
+      · simp only [List.mem_cons, List.not_mem_nil, or_false] at h1; simp [h1]
+      · cases h1
+  · cases hr
+
+theorem owned_kind {h : Heap} {c : Nat} (ty : Typed h c) : ∀ r ∈ owned h c, ¬ Shareable h r := by
+  obtain ⟨k, hd, m, a, v, t, e1, e2, e3, e4, e5, e6, e7⟩ := ty
+  intro r hr sh
+  have known : ∃ x, h.cells r = some x ∧ (∀ a, x ≠ .ap a) ∧ (∀ v, x ≠ .vals v true) ∧ (∀ t, x ≠ .loc t) := by
+    rcases (mem_owned e1 e2 e3).1 hr with rfl | rfl | rfl | h1 | ⟨hm, rfl⟩
+    · exact ⟨_, e1, by simp, by simp, by simp⟩
+    · exact ⟨_, e2, by simp, by simp, by simp⟩
+    · exact ⟨_, e3, by simp, by simp, by simp⟩
+    · obtain ⟨l, hl⟩ := e7 r h1
+      exact ⟨_, hl, by simp, by simp, by simp⟩
+    · have := e6 hm; subst this
+      exact ⟨_, e5, by simp, by simp, by simp⟩
+  obtain ⟨x, hx, n1, n2, n3⟩ := known
+  rcases sh with ⟨a', h1⟩ | ⟨v', h1⟩ | ⟨t', h1⟩
+  · rw [hx] at h1; exact n1 a' (Option.some.inj h1)
+  · rw [hx] at h1; exact n2 v' (Option.some.inj h1)
+  · rw [hx] at h1; exact n3 t' (Option.some.inj h1)
+
+/-- The footprint system of data collections. -/
+def collFP : FP (Option Obs) where
+  reads := reads
+  owned := owned
+  Typed := Typed
+  obs := obs
+  congr := fun ty same => obs_congr ty same
+  lt := fun wf ty => reads_lt wf ty
+  sub := owned_sub_reads
+  kind := fun ty => owned_kind ty
 
 end LbHeap
